@@ -887,6 +887,8 @@ class Engine:
 
     def module_attr(self, st, modname, name):
         mod = self.src.module(modname)
+        if name in mod.consts and mod.consts[name] == [] and modname == 'base_client':
+            return V(Opaque('ClientList'), z3.IntVal(-8))    # module-level registry list
         if name in mod.consts and isinstance(mod.consts[name], (set, frozenset)):
             return V(Opaque('Set'), z3.IntVal(-7))           # a module-level set object
         if name in mod.consts:
@@ -941,12 +943,13 @@ class Engine:
             else:
                 yield st, self.lib.lib_attr(self, o.t[1], attr)
             return
-        if k == 'ref' and is_opt(o.ty):
+        if k in ('ref', 'opaque') and is_opt(o.ty):
             for s2, null in self.fork(st, o.t == 0):
                 if null:
                     yield s2, Raise('AttributeError', (), line)
                 else:
-                    yield from self.getattr(s2, V(Ref(o.ty.args[0]), o.t), attr, line)
+                    nn = Ref(o.ty.args[0]) if k == 'ref' else Opaque(o.ty.args[0])
+                    yield from self.getattr(s2, V(nn, o.t), attr, line)
             return
         if k == 'ref':
             cls = o.ty.args[0]
@@ -975,6 +978,9 @@ class Engine:
             return
         if k == 'none':
             yield st, Raise('AttributeError', (), line)
+            return
+        if k == 'rec' and attr in o.t and self.lib.method(self, o, attr) is None:
+            yield st, o.t[attr]         # named-tuple style record (urlparse result)
             return
         if k == 'exc':
             fn = self.lib.LIBM.get(('exc', attr))
